@@ -297,18 +297,21 @@ func RunProbes(a, b *abci.Chain, f Features, heightShifted bool) []Probe {
 		return fmt.Sprintf("panic=%q updates=%d", e.Panic, len(e.Updates))
 	})
 	// the first block after the restart: what the allocation read and left behind
-	both("query:distributor-after-first-block", func(c *abci.Chain) string {
-		dk := c.App.DistrKeeper
+	both("query:validator-votes-after-first-block", func(c *abci.Chain) string {
+		if heightShifted {
+			return "n/a" // the signing window is counted in heights
+		}
 		var perf []string
 		for _, v := range c.Validators {
-			perf = append(perf, fmt.Sprint(len(dk.GetValidatorVotes(ctxOf(c), v.ConsAddr))))
+			perf = append(perf, fmt.Sprint(len(c.App.DistrKeeper.GetValidatorVotes(ctxOf(c), v.ConsAddr))))
 		}
-		tre := dk.GetFeesTreasury(ctxOf(c)).String()
+		return strings.Join(perf, ",")
+	})
+	both("query:fees-treasury-after-first-block", func(c *abci.Chain) string {
 		if heightShifted {
-			tre = "n/a" // the reward cut depends on the number of votes inside the height window
-			perf = nil
+			return "n/a" // the reward cut depends on the number of votes inside the height window
 		}
-		return fmt.Sprintf("treasury=%s votes=%s", tre, strings.Join(perf, ","))
+		return c.App.DistrKeeper.GetFeesTreasury(ctxOf(c)).String()
 	})
 	// voting and enactment periods pass
 	for i, dt := range []int64{700, 5, 700, 5} {
